@@ -483,6 +483,7 @@ class CallMixin:
             if set(kwargs) - {"default"} or (len(args) > 1 and kwargs):
                 raise Unsupported(f"{short} with keyword argument(s) {sorted(kwargs)}")
             vals = list(args) if len(args) > 1 else self.concrete_items(args[0], st)
+            vals = [self.unopt(st, v) for v in vals]  # Optional operands: usable once the path condition excludes None
             if not vals:
                 if "default" in kwargs:
                     return [("val", kwargs["default"], st)]
